@@ -603,11 +603,18 @@ def _train_rows(scn, purge_on_remove=False):
 
 
 def readds_label(scn):
+    """an `add_arm` of a label that may already have stored rows: it was removed earlier, or an
+    earlier training batch named it while it was not an arm"""
     removed = set()
+    trained = set()
     for op in scn["ops"]:
         if op["op"] == "rem" and not isinstance(op["arm"], dict):
             removed.add(repr(op["arm"]))
-        elif op["op"] == "add" and repr(op["arm"]) in removed:
+        elif op["op"] in ("fit", "pfit"):
+            for x in op.get("d") or []:
+                if not isinstance(x, dict):
+                    trained.add(repr(x))
+        elif op["op"] == "add" and (repr(op["arm"]) in removed or repr(op["arm"]) in trained):
             return True
     return False
 
